@@ -19,6 +19,13 @@ class Check:
     def preload(self):
         """import the library modules used (template process: imports only, no calls)"""
 
+    def arm_groups(self, tier):
+        """list of arm-name sets; each group runs in its own process pool, forked after preload_group(i)"""
+        return [None]
+
+    def preload_group(self, i):
+        self.preload()
+
     def budget(self, tier):
         return 150.0 if tier == "quick" else 1500.0
 
